@@ -6,17 +6,19 @@ EXTENDS Integers, Sequences, FiniteSets, Json, TLC
 CONSTANT Part      \* "layout1" (all single-gap variations) | "layoutN" (full product, use with -simulate or sampling)
                    \* | "rename" | "equ"
 
-Canon == [ind |-> "\t", sep |-> "\t", comma |-> ", ", brk |-> "", opsp |-> "", trail |-> "", cmt |-> "", own |-> 0,
+Canon == [ind |-> "\t", sep |-> "\t", comma |-> ", ", brk |-> "", opsp |-> "", trail |-> "", cmt |-> "", cmtsp |-> " ", own |-> 0,
           blank |-> 0, eol |-> "\n", final |-> 1]
 Dom == [ind |-> {"\t", "", "  ", " \t "}, sep |-> {"\t", " ", "   ", " \t"}, comma |-> {", ", ",", " ,", " , ", ",\t"},
         brk |-> {"", " "}, opsp |-> {"", " "}, trail |-> {"", " ", "\t "},
-        cmt |-> {"", "; c", "# c", ";a,b;c#d[e]'f", "#;"}, own |-> {0, 1}, blank |-> {0, 1, 2},
+        cmt |-> {"", "; c", "# c", ";a,b;c#d[e]'f", "#;", "#copy", ";x"}, cmtsp |-> {" ", "", "\t"}, own |-> {0, 1}, blank |-> {0, 1, 2},
         eol |-> {"\n", "\r\n", "\r"}, final |-> {0, 1}]
 Fields == DOMAIN Canon
 
 Layout1 == UNION {{[Canon EXCEPT ![f] = v] : v \in Dom[f]} : f \in Fields}
 LayoutN == [ind : Dom.ind, sep : Dom.sep, comma : Dom.comma, brk : Dom.brk, opsp : Dom.opsp, trail : Dom.trail,
-            cmt : Dom.cmt, own : Dom.own, blank : Dom.blank, eol : Dom.eol, final : Dom.final]
+            cmt : Dom.cmt, cmtsp : Dom.cmtsp, own : Dom.own, blank : Dom.blank, eol : Dom.eol, final : Dom.final]
+\* a comment directly adjacent to the last token (no blank in between) is a permitted gap of width zero
+Layout2 == {[Canon EXCEPT !.cmt = c, !.cmtsp = g, !.eol = e] : c \in Dom.cmt \ {""}, g \in Dom.cmtsp, e \in Dom.eol}
 
 \* renamings: name i of the program is mapped to fam[((i + rot) % Len(fam)) + 1]
 X39 == "xxxxxxxxxxxxxxxxxxxxxxxxxxxxxxxxxxxxxxx"
@@ -34,7 +36,11 @@ Renamings == {[fam |-> f, rot |-> r] : f \in Families, r \in 0..9}
 \* EQU abstraction: which literal sites (by index) are abstracted, chain depth, body style
 EquCells == {[sites |-> s, depth |-> d, style |-> st] : s \in (SUBSET (0..5)) \ {{}}, d \in 1..4, st \in {"direct", "arith", "paren"}}
 
-Universe == CASE Part = "layout1" -> Layout1 [] Part = "layoutN" -> LayoutN [] Part = "rename" -> Renamings [] Part = "equ" -> {c \in EquCells : Cardinality(c.sites) <= 4}
+\* EQU-rich usage (C11): how a name is used (alone or inside arithmetic), where, and which name of a definition chain
+EquUse == {[form |-> f, pos |-> p, name |-> n] :
+             f \in {"Q", "Q*k", "k*Q", "Q+k", "k+Q", "Q-k", "(Q)*k", "Q/k", "Q%k", "Q*R", "Q+R", "-Q+k", "(Q+k)*k"},
+             p \in {"imm16", "imm8", "db", "dw", "dd", "resb", "disp", "equbody"}, n \in 0..3}
+Universe == CASE Part = "equuse" -> EquUse [] Part = "layout1" -> Layout1 \cup Layout2 [] Part = "layoutN" -> LayoutN [] Part = "rename" -> Renamings [] Part = "equ" -> {c \in EquCells : Cardinality(c.sites) <= 4}
 
 VARIABLE c
 Init == c \in Universe
